@@ -135,6 +135,7 @@ type ModuleSvcSpec struct {
 	Provider sdk.AccAddress
 	Result   string
 	Output   string
+	Optional bool // a registration the keeper is expected to refuse (e.g. a second service under a module name already taken); only if it is accepted is the service reserved
 }
 
 // RigConfig fixes the in-memory (non-store) configuration of the service keeper for a scenario.
@@ -224,6 +225,7 @@ type Rig struct {
 	handler sdk.Handler
 	querier sdk.Querier
 	cfg     RigConfig
+	reserved map[string]bool // service names whose registration by a host module the keeper accepted
 	baseFP  string // fingerprint of the keeper's in-memory containers right after construction (keepermem.go)
 }
 
@@ -428,8 +430,15 @@ func NewRig(cfg RigConfig) *Rig {
 				return spec.Result, spec.Output
 			},
 		}); err != nil {
-			panic(err)
+			if !spec.Optional {
+				panic(err)
+			}
+			continue
 		}
+		if r.reserved == nil {
+			r.reserved = map[string]bool{}
+		}
+		r.reserved[spec.Service] = true
 	}
 
 	r.handler = service.NewHandler(r.sk)
